@@ -189,6 +189,8 @@ type Options struct {
 	Recover  bool  `json:"recover,omitempty"`
 	Dry      bool  `json:"dry,omitempty"`
 	RandSeed int64 `json:"rs,omitempty"`
+	// OptOrder > 0: the container options are passed to dig.New in the permutation this number encodes.
+	OptOrder int64 `json:"oo,omitempty"`
 }
 
 // History is a complete, self-contained test case.
